@@ -107,7 +107,14 @@ def make_stepper(root_inputs):
         b = builders[ev["ctx"]]
         a = ev["a"]
         if a == "AddOp":
-            n = b.add_op(op_of(ev["op"]), *[wire(w) for w in ev["args"]])
+            ws = [wire(w) for w in ev["args"]]
+            how = (len(h) + len(ws)) % 3          # the three spellings of the same call: add_op(op, *wires), add(op(*wires)), extend(op(*wires))
+            if how == 0:
+                n = b.add_op(op_of(ev["op"]), *ws)
+            elif how == 1:
+                n = b.add(op_of(ev["op"])(*ws))
+            else:
+                (n,) = b.extend(op_of(ev["op"])(*ws))
             handles[n.idx] = n
         elif a == "Load":
             n = b.load(val.TRUE)
